@@ -323,7 +323,23 @@ func c18R1(c *Ctx, r *Report) {
 					}
 				}
 			}
-			if len(bytes) != 2 {
+			// or written in one go: binary.BigEndian.PutUint16(octets[:], adc-1)
+			putBE := false
+			for _, a := range byteAccesses(fn) {
+				if !a.Write || a.N != 2 || a.K != 0 || a.Base != nil {
+					continue
+				}
+				v := a.Val
+				if cv, ok := v.(*ssa.Convert); ok {
+					v = cv.X
+				}
+				if isAdcMinus1(v) && (a.Buf == ssa.Value(arr) || sliceOf(a.Buf)[arr]) {
+					putBE = true
+				}
+			}
+			if putBE && len(bytes) == 0 {
+				// big-endian by construction
+			} else if len(bytes) != 2 {
 				problems = append(problems, fmt.Sprintf("%d octets written for ARCOUNT-1, want 2", len(bytes)))
 			} else {
 				for oct, lo := range map[int64]int{0: 8, 1: 0} {
